@@ -10,3 +10,18 @@ fn f3_timestamp_with_overflowing_nanos_is_a_decode_error() {
     let d = zksync_protobuf::proto::std::Duration { seconds: Some(i64::MAX), nanos: Some(i32::MAX) };
     assert!(<zksync_concurrency::time::Duration as ProtoFmt>::read(&d).is_err());
 }
+
+/// F7: a Timestamp / Duration with seconds == i64::MIN and negative nanos DECODES, but re-encoding it (which happens when the hash of
+/// a received message is computed: Signed::verify -> Msg::hash -> canonical -> build) computed `seconds -= 1` and overflowed:
+/// a panic in builds with overflow checks (the dev profile aborts), a wrapped (wrong) encoding otherwise.
+#[test]
+fn f7_duration_at_the_lower_end_of_the_range_is_reencoded() {
+    let p = zksync_protobuf::proto::std::Duration { seconds: Some(i64::MIN), nanos: Some(-5) };
+    let d = <zksync_concurrency::time::Duration as ProtoFmt>::read(&p).unwrap();
+    let back = <zksync_concurrency::time::Duration as ProtoFmt>::read(&d.build()).unwrap();
+    assert_eq!(back, d);
+    let t = zksync_protobuf::proto::std::Timestamp { seconds: Some(i64::MIN), nanos: Some(-1) };
+    let u = <zksync_concurrency::time::Utc as ProtoFmt>::read(&t).unwrap();
+    let back = <zksync_concurrency::time::Utc as ProtoFmt>::read(&u.build()).unwrap();
+    assert_eq!(back, u);
+}
